@@ -38,3 +38,29 @@ def x01(ctx):
     rnd = ctx.path("cases-b.ndjson")
     vlib.harness(["gen", "cstr", ctx.seed, 3000 if q else 40000, rnd])
     vlib.exec_and_judge(ctx, "cstr", rnd, "Trace_CharString", "B", sample_keys=keys)
+
+
+@ext("X02", "proc", "Trace_Proc", "preprocessing pipeline: combinators, whitespace ops, overwrite/mark/prefix/suffix, substrings")
+def x02(ctx):
+    q = ctx.quick()
+    ctx.rule = ("MC: small-step interpreter (one action per configuration node) for all configuration trees of depth 1/2 over 17 primitives "
+                "x all (input, target) pairs of texts up to 2 characters over {a, 2-byte b, space} x 3 switch draws: every reachable state "
+                "stays within the denotational semantics Eval, whitespace-only pipelines keep the content and cannot fail, marks only "
+                "grow, the substring of a pair that differs only in whitespace is such a pair and is always found; A: ~190 configuration "
+                "trees x all respacings of all contents up to %d letters (1-byte, 2-byte, cluster) x both modes x 2 seeds on the real "
+                "preprocessing(): the observed (input, target, marks, error) is one of Eval's outcomes; B: random trees of depth <=2 with "
+                "random texts. non-trivial = >=2 distinct primitives or a substring function" % (2 if q else 3))
+    ctx.assumptions = ["the random generator is not modelled: the switch draw is read back from the seed by the harness, the substring "
+                       "window is an arbitrary one of the possible windows", "draws within 1e-6 of a switch threshold are skipped"]
+    cfg = ("CONSTANTS MaxText = 2 Depth = %d\nSPECIFICATION Spec\nINVARIANTS Refines WsOnlyKeepsContent MarksGrow SubstringKeepsAlignment\n"
+           "PROPERTY Terminates\nCHECK_DEADLOCK FALSE\n" % (1 if q else 2))
+    vlib.mc(ctx, "MC_Proc", cfg, name="MC_Proc", workers=8, timeout=3000)
+    gcfg = ("CONSTANTS MaxLen = %d Seeds = %d AllTargets = %s\nINIT Init\nNEXT Next\nCHECK_DEADLOCK FALSE\n"
+            % ((2, 1, "FALSE") if q else (3, 2, "TRUE")))
+    cases, n = vlib.tlc_generate(ctx, "Gen_Proc", gcfg, "cases-a.ndjson")
+    keys = ["cfg", "i", "t", "g", "r", "outs"]
+    vlib.exec_and_judge(ctx, "proc", cases, "Trace_Proc", "A", sample_keys=keys)
+    ctx.exhaustive = True
+    rnd = ctx.path("cases-b.ndjson")
+    vlib.harness(["gen", "proc", ctx.seed, 4000 if q else 60000, rnd])
+    vlib.exec_and_judge(ctx, "proc", rnd, "Trace_Proc", "B", sample_keys=keys)
